@@ -52,11 +52,7 @@ func c14Cases(tier string) []chainCase {
 	var cases []chainCase
 	envs := []EnvCfg{defaultEnv()}
 	if tier == "thorough" {
-		cross := defaultEnv()
-		cross.FeatureHeight = 6
-		cross.Setup = nil
-		cross.Genesis = "legacy-nodes"
-		envs = append(envs, cross)
+		envs = append(envs, crossingEnv())
 	}
 	mk := func(env EnvCfg, ei int, name, class string, pre []BlockSpec, t TxSpec, authorized bool) {
 		ref := append(append([]BlockSpec{}, pre...), BlockSpec{})
